@@ -23,10 +23,13 @@ import (
 	"sync"
 	"time"
 
+	"github.com/bufbuild/buf/private/buf/bufcli"
 	"github.com/bufbuild/buf/private/bufpkg/bufcas"
 	"github.com/bufbuild/buf/private/bufpkg/bufmodule"
 	"github.com/bufbuild/buf/private/bufpkg/bufmodule/bufmodulecache"
 	"github.com/bufbuild/buf/private/bufpkg/bufmodule/bufmodulestore"
+	"github.com/bufbuild/buf/private/pkg/app"
+	"github.com/bufbuild/buf/private/pkg/app/appext"
 	"github.com/bufbuild/buf/private/pkg/filelock"
 	"github.com/bufbuild/buf/private/pkg/slogext"
 	"github.com/bufbuild/buf/private/pkg/storage"
@@ -240,6 +243,14 @@ type csim struct {
 	crashStates map[string]struct{}
 	snapSeq     int
 	procSeq     int
+	// wired: some processes of the run obtain their providers from the command line's own wiring
+	// (bufcli.NewModuleDataProvider / NewCommitProvider on a container with that process's environment)
+	wired  bool
+	home   string
+	modRel string // module cache directory relative to root
+	comRel string // commit cache directory relative to root
+	// wiring[process]: the process whose providers are being constructed (lockers have no context)
+	wiringProc *sched.Proc
 }
 
 func (m *csim) violate(oracle, site, format string, args ...any) {
@@ -475,8 +486,8 @@ func (m *csim) snapshot(op sched.Op) {
 // recover runs O2 and O3 against a directory with fresh, un-instrumented components.
 func (m *csim) recover(root, when, site string) {
 	ctx := context.Background()
-	m.recoverCommits(ctx, filepath.Join(root, "commits"), when, site)
-	raw, err := storageos.NewProvider().NewReadWriteBucket(filepath.Join(root, "modules"))
+	m.recoverCommits(ctx, filepath.Join(root, m.comRel), when, site)
+	raw, err := storageos.NewProvider().NewReadWriteBucket(filepath.Join(root, m.modRel))
 	if err != nil {
 		panic(err)
 	}
@@ -674,6 +685,9 @@ type procState struct {
 }
 
 func (m *csim) newProcess(name string) *procState {
+	if m.wired && m.tp.Draw("wiredproc", 3) != 0 {
+		return m.newWiredProcess(name)
+	}
 	proc := m.s.Proc(name)
 	bucket := &simfs.Bucket{S: m.s, U: m.raw, Name: "c", Hooks: m.hooks}
 	locker := simlock.NewLocker(m.table, proc)
@@ -685,6 +699,59 @@ func (m *csim) newProcess(name string) *procState {
 		commitProvider: bufmodulecache.NewCommitProvider(slogext.NopLogger, m.reg, bufmodulestore.NewCommitStore(slogext.NopLogger, cbucket)),
 		provided:       map[int]bool{},
 	}
+}
+
+// wiredLocker stands in for filelock.NewLocker while a wired process is being constructed: one lock
+// table entry per (lock directory, path), so that two processes exclude each other exactly when the
+// wiring gave them the same lock directory.
+func (m *csim) wiredLocker(rootDirPath string) filelock.Locker {
+	l := simlock.NewLocker(m.table, m.wiringProc)
+	want := filepath.Join(m.root, "v3", "modulelocks")
+	if got := filepath.Clean(rootDirPath); got != want {
+		l.Prefix = "[" + strings.ReplaceAll(got, m.env.Scratch, "<scratch>") + "]"
+		m.s.Probe("wired-lock-directory-elsewhere")
+	}
+	return l
+}
+
+// newWiredProcess: a process whose providers are what the buf command would construct for its
+// environment - cache directory from BUF_CACHE_DIR, XDG_CACHE_HOME or HOME, its own unwrapped disk
+// buckets (the hooks below storageos are the scheduling and fault points), the lock directory the
+// wiring chooses. All spellings of the environment denote the SAME cache directory; HOME and the data
+// directories differ from process to process (two users, a container and its host, CI runners).
+func (m *csim) newWiredProcess(name string) *procState {
+	proc := m.s.Proc(name)
+	other := filepath.Join(m.env.Scratch, "home-"+name)
+	var envm map[string]string
+	switch m.tp.Draw("wiredenv", 4) {
+	case 0:
+		envm = map[string]string{"HOME": m.home}
+	case 1:
+		envm = map[string]string{"HOME": other, "BUF_CACHE_DIR": m.root}
+	case 2:
+		envm = map[string]string{"HOME": other, "XDG_CACHE_HOME": filepath.Join(m.home, ".cache")}
+	default:
+		envm = map[string]string{"HOME": m.home, "BUF_CACHE_DIR": m.root, "XDG_DATA_HOME": filepath.Join(other, "data"), "XDG_CONFIG_HOME": filepath.Join(other, "config")}
+	}
+	nameContainer, err := appext.NewNameContainer(app.NewContainer(envm, strings.NewReader(""), &bytes.Buffer{}, &bytes.Buffer{}), "buf")
+	if err != nil {
+		panic(err)
+	}
+	container := appext.NewContainer(nameContainer, slogext.NopLogger)
+	m.wiringProc = proc
+	provider, err := bufcli.NewModuleDataProvider(container)
+	if err != nil {
+		panic(fmt.Sprintf("harness: wiring of the module data provider failed: %v", err))
+	}
+	commitProvider, err := bufcli.NewCommitProvider(container)
+	if err != nil {
+		panic(fmt.Sprintf("harness: wiring of the commit provider failed: %v", err))
+	}
+	// direct store operations of the script go through a store over the same directory and lock table
+	store := bufmodulestore.NewModuleDataStore(slogext.NopLogger, m.raw, simlock.NewLocker(m.table, proc), m.storeOpts()...)
+	m.wiringProc = nil
+	m.s.Probe("wired-process")
+	return &procState{name: name, proc: proc, store: store, provider: provider, commitProvider: commitProvider, provided: map[int]bool{}}
 }
 
 // slowProc: every second process (p1, p3, ...) is the slow one of a run that has slow processes.
@@ -1201,8 +1268,16 @@ func Run(tp *tape.Tape, env *engine.Env) *engine.Outcome {
 	m.u = u
 	m.tar = tp.Draw("tar", 4) == 3
 	m.root = filepath.Join(env.Scratch, "cache")
-	m.dir = filepath.Join(m.root, "modules")
-	m.cdir = filepath.Join(m.root, "commits")
+	m.modRel, m.comRel = "modules", "commits"
+	if m.wired = !m.tar && tp.Draw("wired", 3) == 2; m.wired {
+		// the layout of the command line: $HOME/.cache/buf/v3/{modules,commits,modulelocks}
+		m.home = filepath.Join(env.Scratch, "h")
+		m.root = filepath.Join(m.home, ".cache", "buf")
+		m.modRel, m.comRel = filepath.Join("v3", "modules"), filepath.Join("v3", "commits")
+		hooks.RawRoot, hooks.RawName = m.root, "w"
+	}
+	m.dir = filepath.Join(m.root, m.modRel)
+	m.cdir = filepath.Join(m.root, m.comRel)
 	for _, d := range []string{m.dir, m.cdir} {
 		if err := os.MkdirAll(d, 0o755); err != nil {
 			panic(err)
@@ -1221,6 +1296,12 @@ func Run(tp *tape.Tape, env *engine.Env) *engine.Outcome {
 	m.taintedCommit = map[int]bool{}
 	m.table = simlock.NewTable(s)
 	m.reg = &registry{m: m, calls: map[string]int{}}
+	if m.wired {
+		bufcli.VerifModuleDataDelegate, bufcli.VerifCommitDelegate, filelock.VerifNewLocker = m.reg, m.reg, m.wiredLocker
+		defer func() {
+			bufcli.VerifModuleDataDelegate, bufcli.VerifCommitDelegate, filelock.VerifNewLocker = nil, nil, nil
+		}()
+	}
 	thread.SetParallelism(tape.Pick(tp, "par", []int{4, 1, 2}))
 	s.YieldJobs = false
 
